@@ -6,9 +6,10 @@
 //	                 IsAny IsGeneric) and GetUnderlying TrueUnderlying ListTrueUnderlying GetListElementType
 //	                 GetNestedListElementType CastTypeDef(..).Underlying, rendered by tyspec.Show
 //	E                per type: row of Equal and row of DeepEqual against every registered type
-//	C                the codes of TYP_BAD_ASSIGNEMENT and TYP_BAD_CAST
+//	C                the codes of TYP_BAD_ASSIGNEMENT, TYP_BAD_CAST, TYP_TYPE_MISMATCH, TYP_WRONG_RETURN_TYPE
 //	S <id> <hex>     parse the DDP source: "S <id> <err> <faulty> <code>:<line> ..."
 //	GU ...           generic unification / instantiation (see generic.go)
+//	FI <hexpath>     generic function instantiation cache of a parsed program (see funinst.go)
 package main
 
 import (
@@ -114,7 +115,7 @@ func main() {
 					row(ts, func(b ddptypes.Type) bool { return ddptypes.DeepEqual(a, b) }))
 			}
 		case "C": // the diagnostic codes of the positions under test, from the real constants
-			fmt.Fprintf(out, "C %d %d\n", int(ddperror.TYP_BAD_ASSIGNEMENT), int(ddperror.TYP_BAD_CAST))
+			fmt.Fprintf(out, "C %d %d %d %d\n", int(ddperror.TYP_BAD_ASSIGNEMENT), int(ddperror.TYP_BAD_CAST), int(ddperror.TYP_TYPE_MISMATCH), int(ddperror.TYP_WRONG_RETURN_TYPE))
 		case "S":
 			src, err := hex.DecodeString(fs[2])
 			if err != nil {
@@ -123,7 +124,7 @@ func main() {
 			}
 			parseProgram(fs[1], src, out)
 		default:
-			if !genericCommand(fs, out) {
+			if !genericCommand(fs, out) && !funinstCommand(fs, out) {
 				fmt.Fprintln(os.Stderr, "bad line:", in.Text())
 				os.Exit(3)
 			}
